@@ -4,7 +4,7 @@
 # 2. applies the patch to /repo, runs the named checks (quick), and undoes it.
 set -u
 D=$(cd "$1" && pwd); shift
-W=/var/tmp/mutwt
+W=/var/tmp/mutwt${NOREPO:+-$$}      # NOREPO=1: checks run against the scratch worktree (VERIF_REPO), /repo is left alone; several may run at once
 HEAD=$(git -C /repo rev-parse --short HEAD)
 ORIG=/var/tmp/mutorig-$HEAD
 build() { cmake -G Ninja -S "$1" -B "$2" -DCMAKE_BUILD_TYPE=RelWithDebInfo -DCMAKE_C_FLAGS=-Wno-error -DCMAKE_CXX_FLAGS=-Wno-error >/dev/null 2>&1 && cmake --build "$2" -j16 >/dev/null 2>&1; }
@@ -28,6 +28,15 @@ else
 DO=$(run_demo "$ORIG"); DM=$(run_demo "$W/_build")
 fi
 echo "CONFIRM $D: tests: $T | demo on original: exit $DO | demo on mutant: exit $DM"
+if [ -n "${NOREPO:-}" ]; then
+  rm -rf $W/_build $W/_build_dbg
+  for c in "$@"; do
+    out=$(cd /verif && VERIF_REPO=$W VERIF_EVIDENCE_DIR=/var/tmp/beebtools-verif/scratch/ev-mut-$$ checks/check $c --tier quick 2>&1); rc=$?
+    echo "CHECK $c on $D: rc=$rc $(echo "$out" | grep -E "signature|MACHINERY" | head -4 | tr '\n' '|' | cut -c1-300)"
+  done
+  git -C /repo worktree remove --force $W; rm -rf /var/tmp/beebtools-verif/scratch/ev-mut-$$
+  exit 0
+fi
 git -C /repo worktree remove --force $W
 if git -C /repo status --short | grep -q .; then echo "/repo not clean"; exit 2; fi
 git -C /repo apply "$D/patch.diff" || exit 2
